@@ -139,6 +139,7 @@ func e2eValues(ie *entities.InfoElement, small bool) [][]byte {
 		if ie.DataType == entities.String {
 			// a Go string is any byte sequence: bytes that are not UTF-8 travel unchanged too
 			add([]byte{'a', 0xff, 0xc3, 'z', 0x80})
+			add([]byte{'e', 't', 'h', '0', 0, 0}) // trailing NUL octets are part of the value
 		}
 		return out
 	case entities.Float32:
